@@ -153,7 +153,8 @@ def _on_start(ind, v):
     sites = tuple(n for n, _ in OBS.stack)
     OBS.ev('Start', node.id_number, ind.id_number, tk(v), _queue_ctx(node, ind),
            1 if getattr(ind, 'interrupted', False) else 0, sites,
-           tk(ind.service_time) if not isinstance(ind.service_time, str) else ('s', ind.service_time))
+           tk(ind.service_time) if not isinstance(ind.service_time, str) else ('s', ind.service_time),
+           sum(1 for x in node.interrupted_individuals if x is not ind), capv(node.c) if node.c != float('inf') else -1)
 
 
 class TServer(ciw.Server):
